@@ -185,6 +185,7 @@ def run_history(args):
         finalized_hash = {}
         sess_no = 0
         trace = []
+        polling = None
         for ch in hist:
             dname = ch[0]
             top = os.path.join(root, dname)
@@ -249,6 +250,19 @@ def run_history(args):
                         bad({"class": "finalized_file_changed"}, "%s changed or vanished during %r %r" % (fp, ch, op))
             w.close()
             m.close_session()
+            # a reader that was created after the first session and has answered queries since then reports
+            # the bounds of everything recorded so far in its directories (sessions may back-fill earlier periods)
+            if polling is None:
+                polling = (drf.DigitalRFReader(top), dname)
+            if polling is not None:
+                exd = models[polling[1]].exposed(rf.Cfg(**base_cfg))
+                try:
+                    bp = tuple(polling[0].get_bounds("ch0"))
+                    if exd and bp != (min(exd), max(exd)):
+                        bad({"class": "long_lived_reader_bounds"}, "after session %r: reader opened after the first session reports %r, "
+                            "directory %s holds [%d,%d]" % (ch, bp, polling[1], min(exd), max(exd)))
+                except Exception as e:  # noqa: BLE001
+                    bad({"class": "long_lived_reader_raised", "exc": type(e).__name__}, "after session %r: %r" % (ch, e))
             state.setdefault(dname, set()).update(file_of(k) for k in m.written)
             finalized_hash = file_hashes(tops)
             trace.append((dname, start, ops))
@@ -273,6 +287,32 @@ def run_history(args):
             for key, detail in errs:
                 bad(key, detail)
             reader.close()
+            # the answer does not depend on the order in which the directories are listed, nor on a further
+            # directory whose channel has been set up (properties file) but holds no data file yet
+            import itertools
+
+            etop = os.path.join(root, "E")
+            os.makedirs(os.path.join(etop, "ch0"))
+            rf.open_writer(drf, os.path.join(etop, "ch0"), rf.Cfg(**{**base_cfg, "start": first_of_file(90), "uuid": "no-data-yet"})).close()
+            orders = [list(p_) for p_ in itertools.permutations(tops)] if len(tops) > 1 else []
+            orders += [list(tops[:i_]) + [etop] + list(tops[i_:]) for i_ in range(len(tops) + 1)]
+            for oi, order in enumerate(orders):
+                names = [os.path.basename(t_) for t_ in order]
+                try:
+                    r3 = drf.DigitalRFReader(order)
+                    b3 = tuple(r3.get_bounds("ch0"))
+                    if b3 != (lo, hi):
+                        bad({"class": "bounds_depend_on_directory_list", "with_empty_channel": etop in order},
+                            "directories listed as %s: get_bounds %r expected %r" % (names, b3, (lo, hi)))
+                    if oi in (len(orders) - 1, 1):
+                        errs, _ = rfrun.oracle_roundtrip(run, r3, "linear", edge_limit=12)
+                        for key, detail in errs:
+                            bad(dict(key, dir_order="permuted"), "directories listed as %s: %s" % (names, detail))
+                    r3.close()
+                except Exception as e:  # noqa: BLE001
+                    bad({"class": "reader_raised_for_directory_list", "exc": type(e).__name__, "with_empty_channel": etop in order},
+                        "directories listed as %s: %r" % (names, e))
+                part["outcomes"]["dir_orders"] += 1
             # every directory alone: layout
             for dname, m in models.items():
                 r2 = rfrun.Run()
